@@ -1,4 +1,5 @@
 import TdModel.Model.C04
+import TdModel.Model.C04Gzip
 import TdModel.Prim.All
 open TdModel TdModel.C04 TdModel.C06
 
@@ -28,6 +29,18 @@ def handle (line : String) : String :=
       | .ok c => "ok " ++ toHex c
       | .error e => "err " ++ e.tag
     | _, _, _, _, _, _ => "bad-op"
+  | ["newmsg", s, ak, kid, opt, salt, sid, mid, seq, payload, gzOut, rnd] =>
+    match side? s, ofHex ak, ofHex kid, opt.toInt?, [salt, sid, mid, seq].mapM String.toNat?, ofHex payload,
+        ofHex gzOut, ofHex rnd with
+    | some s, some ak, some kid, some opt, some [salt, sid, mid, seq], some payload, some gzOut, some rnd =>
+      -- compression is a parameter of the model: the harness supplies what gzip produced for this payload
+      let G : Gz := { gz := fun _ => gzOut, gunz := fun _ => none }
+      let path := match choosePath (effectiveThreshold opt) payload.length with
+        | .message => "message" | .gzip => "gzip" | .raw => "raw"
+      match newEncryptedMessage P G s ak kid opt salt sid mid seq payload rnd with
+      | .ok c => "ok " ++ path ++ " " ++ toHex c
+      | .error e => "err " ++ e.tag
+    | _, _, _, _, _, _, _, _ => "bad-op"
   | ["dec", s, ak, kid, c] =>
     match side? s, ofHex ak, ofHex kid, ofHex c with
     | some s, some ak, some kid, some c =>
